@@ -37,7 +37,8 @@ fn h_ni_single() {
     unsafe { inv_mix_columns(&mut x); }
     assert!(eq(&x.0, &fips::inv_mix_columns(&b)));
 }
-// @ob name=h_ni_mix_columns props=C17,C20 cfg=hazmat solver=z3 fn=aes::ni::hazmat::mix_columns timeout=3600
+// (full-block form: > 40 min on z3; the per-column form below is the quick one)
+// @ob name=h_ni_mix_columns props=C17,C20 cfg=hazmat tier=thorough solver=z3 fn=aes::ni::hazmat::mix_columns timeout=3600
 #[kani::proof]
 #[kani::stub(core::arch::x86_64::_mm_aesimc_si128, x86_models::aesimc)]
 #[kani::unwind(20)]
